@@ -250,6 +250,18 @@ func (m *Module) start(reports chan *report) {
 }
 
 func (m *Module) checkIfStopComplete() {
+	// Fast path: there is nothing to complete unless the module is stopping.
+	if !m.stopFlag.IsSet() {
+		return
+	}
+
+	// Evaluate and signal completion while holding the module lock, which stop()
+	// and start() hold while they reset the stop state. Without it, a check that
+	// is suspended after having read the counters can win stopCompleted of a later
+	// stop cycle and close its stopComplete while work of that cycle is running.
+	m.Lock()
+	defer m.Unlock()
+
 	if m.stopFlag.IsSet() &&
 		m.ctrlFuncRunning.IsNotSet() &&
 		atomic.LoadInt32(m.workerCnt) == 0 &&
@@ -257,8 +269,6 @@ func (m *Module) checkIfStopComplete() {
 		atomic.LoadInt32(m.microTaskCnt) == 0 {
 
 		if m.stopCompleted.SetToIf(false, true) {
-			m.Lock()
-			defer m.Unlock()
 			close(m.stopComplete)
 		}
 	}
